@@ -121,6 +121,7 @@ func (v *StructSchema) process(ctx *p.SchemaCtx) {
 		subCtx.Path.Push(&fieldKey)
 		subCtx.DType = processor.getType()
 		subCtx.Exit = false
+		p.VerifEmit("field", originalKey, fieldKey, nil)
 		processor.process(subCtx)
 		subCtx.Path.Pop()
 	}
@@ -201,6 +202,7 @@ func (v *StructSchema) validate(ctx *p.SchemaCtx) {
 		subCtx.ValPtr = destPtr
 		subCtx.Path.Push(&fieldKey)
 		subCtx.DType = schema.getType()
+		p.VerifEmit("field", key, fieldKey, nil)
 		schema.validate(subCtx)
 		subCtx.Path.Pop()
 	}
